@@ -332,7 +332,9 @@ func (p *parser) parseTypeAssertion(left Node) Node {
 	if t == nil {
 		return nil // previous error
 	}
-	return &TypeAssertion{T: t, token: tok, Left: left}
+	// the asserted value is a run-time value like a variable's, not a
+	// literal: its composite type cannot be converted.
+	return &TypeAssertion{T: fixedType(t), token: tok, Left: left}
 }
 
 func isBinaryOp(tt lexer.TokenType) bool {
